@@ -19,7 +19,8 @@ MANIFEST = {
             "fold 'integral since the last excitation, negated at each refocusing' (induction over the event list); "
             "pulses of any other use do not change k; the antiderivative of a corner list is its exact integral "
             "(prim p c = area of p cut at c, trapezoid rule on every stretch without corner); ADC sample times are "
-            "start + delay + (i + 1/2) dwell; without RF the final k is the sum of the areas of all pieces. "
+            "start + delay + (i + 1/2) dwell; without RF the final k is the sum of the areas of all pieces; the "
+            "two-list / two-pointer period loop of the code equals the fold for every time-sorted pulse list. "
             "Constants and the reset/negation statements are re-read from the source on every run; the extracted "
             "model is run against calculate_kspace on random sequences with excitation/refocusing/other pulses "
             "(block and sinc), all gradient kinds and ADCs, and k at every ADC sample, t_adc, t_excitation, "
@@ -27,17 +28,20 @@ MANIFEST = {
     'note': 'Trusted: Coq kernel; translator patterns; extraction + driver; binary64/NumPy/scipy PPoly arithmetic is '
             'outside the model (sampled); the 1e-10 time-grid rounding and np.unique/searchsorted lookup are modelled '
             'on exact times (all generated times are multiples of 50 ns, where the rounding is the identity); the '
-            'full k_traj array is not compared because calculate_kspace does not return its time axis.',
+            'time axis of the full k_traj array (not returned by calculate_kspace) is rebuilt in the harness the way '
+            'the code builds it; every finite column is checked by the oracle, a sample of 12 columns by the model.',
     'technique': 'Rocq/Coq proof over a Gallina model (induction over the RF event list / corner list) + '
                  'extraction-based correspondence + exact-rational oracle',
 }
 BUDGET = {'quick': 80, 'thorough': 1500}
 MISMATCH_BUDGET = 0.0
-RULE = ('random edge-consistent sequences of 1-8 (quick) / 1-30 (thorough) blocks with block/sinc RF pulses of use '
+RULE = ('random edge-consistent sequences of 1-8 (quick) / 1-30 (thorough) blocks with block/sinc/composite (2-3 '
+        'equal-amplitude lobes of different length: peak reached on an unevenly distributed sample set) RF pulses of use '
         'none/excitation/refocusing/inversion/saturation/preparation (random delay, duration, centre position), '
         'gradients of all kinds on 3 channels (also during RF), ADC events with random dwell/delay/num_samples; per '
         'sequence calculate_kspace(): t_adc, t_excitation, t_refocusing and k_traj_adc on every channel vs exact '
-        'integrator and vs the extracted model; the model recurrence is also compared with the oracle at RF centres '
+        'integrator and vs the extracted model; every finite point of the full k_traj on the rebuilt time axis vs '
+        'the integrator (and a sample vs the model); the model recurrence is also compared with the oracle at RF centres '
         'and random times. distinct = distinct sequences; non-trivial = has an ADC sample after an excitation or '
         'refocusing pulse')
 TRUSTED = ['binary64 arithmetic of NumPy and scipy.interpolate.PPoly (antiderivative) are outside the model: sampled',
@@ -104,6 +108,42 @@ def junction_k_slack(rend, raster):
     return tot
 
 
+def ktraj_axis(seq):
+    """the time axis of calculate_kspace's full k_traj array, which the function does not return: rebuilt the way the
+    code builds it (sequence.py 321-374: corner times of the padded waveforms, raster points on ramps, 0, excitation /
+    refocusing times and the marker points one / two RF rasters before, ADC sample times, total duration; all
+    rounded to the 1e-10 grid and made unique)"""
+    from pypulseq import eps
+    total = sum(seq.block_durations.values())
+    t_exc, _, t_ref, _ = seq.rf_times()
+    t_adc, _ = seq.adc_times()
+    gw_pp = seq.get_gradients()
+    tc = []
+    for pp_ in gw_pp:
+        if pp_ is None:
+            continue
+        gm = pp_.antiderivative()
+        tc.append(gm.x)
+        ii = np.flatnonzero(np.abs(gm.c[0, :]) > 1e-7 * seq.system.max_slew)
+        if ii.shape[0] == 0:
+            continue
+        starts = np.int64(np.floor((gm.x[ii] + eps) / seq.grad_raster_time))
+        ends = np.int64(np.ceil((gm.x[ii + 1] - eps) / seq.grad_raster_time))
+        for s0, e0 in zip(starts, ends):
+            tc.append(np.arange(s0, e0 + 1) * seq.grad_raster_time)
+    tc = np.concatenate(tc) if tc else np.zeros(0)
+    t_acc = 1e-10
+    t_acc_inv = 1 / t_acc
+    rr = seq.rf_raster_time
+    allt = np.array([*tc, 0, *(np.asarray(t_exc) - 2 * rr), *(np.asarray(t_exc) - rr), *t_exc,
+                     *(np.asarray(t_ref) - rr), *t_ref, *t_adc, total])
+    return t_acc * np.unique(np.round(t_acc_inv * allt))
+
+
+def snap10(x):
+    return Fraction(int(round(float(x) * 10 ** 10)), 10 ** 10)
+
+
 def close_t(a, b):
     return abs(a - b) <= Fraction(1, 10 ** 12) + abs(b) / 10 ** 9
 
@@ -152,6 +192,7 @@ def run_case(ctx, case, rng):
             break
     # k at the ADC samples
     rends = [eg.Rendering(held, ch) for ch in range(3)]
+    jslack = [junction_k_slack(rends[ch], held.raster) for ch in range(3)]
     kor = [[k_oracle_simple(rends[ch], evs, t) for t in tadc] for ch in range(3)]
     if ok and tadc:
         k_adc = np.asarray(k_adc)
@@ -162,7 +203,7 @@ def run_case(ctx, case, rng):
             if not ok:
                 break
             scale = max([Fraction(0)] + [abs(v) for v in kor[ch]])
-            tol = scale / 10 ** 9 + Fraction(1, 10 ** 9) + junction_k_slack(rends[ch], held.raster)
+            tol = scale / 10 ** 9 + Fraction(1, 10 ** 9) + jslack[ch]
             for i, t in enumerate(tadc):
                 g = float(k_adc[ch, i])
                 if not (g == g) or abs(F(g) - kor[ch][i]) > tol:
@@ -170,6 +211,35 @@ def run_case(ctx, case, rng):
                                                             'want': float(kor[ch][i]), 'tol': float(tol)})
                     ok = False
                     break
+    # the FULL trajectory: every finite point of k_traj (NaN entries mark excitations) on the rebuilt time axis
+    grid = None
+    if ok:
+        k_full = np.asarray(k_traj, dtype=float)
+        try:
+            axis = ktraj_axis(seq)
+        except BaseException:
+            axis = None
+        if axis is None or k_full.ndim != 2 or k_full.shape[1] != len(axis):
+            ctx.count('k_traj.axis_not_rebuilt')
+        else:
+            grid = [snap10(t) for t in axis]
+            ctx.count('k_traj.points', len(grid))
+            for ch in range(3):
+                if not ok:
+                    break
+                want = [k_oracle_simple(rends[ch], evs, t) for t in grid]
+                scale = max([Fraction(0)] + [abs(v) for v in want])
+                tol = scale / 10 ** 9 + Fraction(1, 10 ** 9) + jslack[ch]
+                for j, t in enumerate(grid):
+                    g = float(k_full[ch, j])
+                    if g != g:
+                        ctx.count('k_traj.nan_marker')
+                        continue
+                    if abs(F(g) - want[j]) > tol:
+                        ctx.fail('C09/k_traj-value', case, {'channel': ch, 'column': j, 't': float(t), 'got': g,
+                                                            'want': float(want[j]), 'tol': float(tol)})
+                        ok = False
+                        break
     # without RF the final k is the sum of the gradient areas: last column of k_traj
     if ok and not evs:
         k_traj = np.asarray(k_traj)
@@ -179,7 +249,7 @@ def run_case(ctx, case, rng):
                 ts, vs = eg.event_corners(g, held.raster)
                 area += sum((vs[i] + vs[i + 1]) * (ts[i + 1] - ts[i]) / 2 for i in range(len(ts) - 1))
             g = float(k_traj[ch, -1]) if k_traj.shape[1] else 0.0
-            tol = abs(area) / 10 ** 9 + Fraction(1, 10 ** 9) + junction_k_slack(rends[ch], held.raster)
+            tol = abs(area) / 10 ** 9 + Fraction(1, 10 ** 9) + jslack[ch]
             if not (g == g) or abs(F(g) - area) > tol:
                 ctx.fail('C09/final-k-no-rf', case, {'channel': ch, 'got': g, 'sum_of_areas': float(area)})
                 ok = False
@@ -194,12 +264,19 @@ def run_case(ctx, case, rng):
         ctx.count('rf.kind.%s' % kind)
     for e in held.blocks:
         if e['rf'] is not None:
-            ctx.count('rf.shape.%s' % ('block' if len(e['rf']['t']) == 2 else 'sinc'))
+            mg = e['rf']['mag']
+            peak = [i for i, v in enumerate(mg) if v >= max(mg) * Fraction(99999, 100000)]
+            uneven = len(peak) > 1 and peak[-1] - peak[0] + 1 != len(peak)
+            ctx.count('rf.shape.%s' % ('block' if len(mg) == 2 else 'peak-set-with-holes' if uneven else 'single-peak-or-plateau'))
     ctx.count('seq.%s' % ('adc_after_rf' if after else 'no_adc_after_rf'))
     # model correspondence
     if ok and ctx.model_available:
+        gsample = []
+        if grid:
+            idx = sorted(rng.sample(range(len(grid)), min(len(grid), 12)))
+            gsample = [(grid[j], j) for j in idx if grid[j] >= 0]
         extra = sorted(set([tv for (tv, _, _) in evs] + [eg.snap(rng.uniform(0, float(held.total))) for _ in range(4)]
-                           + [held.total]))
+                           + [held.total] + [t for t, _ in gsample]))
         lines = ['kspace.full %s %s %s' % (qtok(held.raster), held.kblocks_tok(), qlist(extra))]
         outs = ctx.model(lines)
         parts = outs[0].split(' | ')
@@ -224,12 +301,26 @@ def run_case(ctx, case, rng):
                         ctx.mismatch('kspace.k_adc', case, {'channel': ch, 'sample': i, 'model': float(mk[ch][i]),
                                                             'impl': float(k_adc[ch, i])})
                         return ok
+        # model vs implementation on a sample of the full trajectory
+        if gsample:
+            k_full = np.asarray(k_traj, dtype=float)
+            pos = {t: i for i, t in enumerate(extra)}
+            for ch in range(3):
+                mv = lists[6 + ch]
+                scale = max([Fraction(0)] + [abs(v) for v in mv])
+                tol = scale / 10 ** 9 + Fraction(1, 10 ** 9)
+                for t, j in gsample:
+                    g = float(k_full[ch, j])
+                    if g == g and abs(mv[pos[t]] - F(g)) > tol:
+                        ctx.mismatch('kspace.k_traj', case, {'channel': ch, 'column': j, 't': float(t),
+                                                             'model': float(mv[pos[t]]), 'impl': g})
+                        return ok
         # model recurrence vs oracle at RF centres / random times / the end
         for ch in range(3):
             mv = lists[6 + ch]
             for tt, v in zip(extra, mv):
                 w = k_oracle_simple(rends[ch], evs, tt)
-                tol = abs(w) / 10 ** 9 + Fraction(1, 10 ** 9) + junction_k_slack(rends[ch], held.raster)
+                tol = abs(w) / 10 ** 9 + Fraction(1, 10 ** 9) + jslack[ch]
                 if abs(v - w) > tol:
                     ctx.mismatch('kspace.model_vs_oracle', case, {'channel': ch, 't': float(tt), 'model': float(v),
                                                                   'oracle': float(w)})
@@ -264,7 +355,7 @@ def run(ctx):
     rng = ctx.rng('sequences')
     trng = ctx.rng('times')
     big = ctx.tier == 'thorough' or ctx.escalated
-    n_cases = 3000 if big else 150
+    n_cases = 3000 if big else 130
     cases = corpus()
     for i in range(n_cases):
         k = rng.random()
